@@ -53,6 +53,8 @@ class Scheduler:
         for lk in self.sems:
             lk.acquire()
         self.no_preempt = [False] * n_clients
+        self.cur_faults: list = [None] * n_clients
+        self.roll = 0
         self.done_evt = threading.Event()
         self.state = ["ready"] * n_clients  # ready | done
         self.current = -1
@@ -91,6 +93,7 @@ class Scheduler:
         self.novel: dict = {}
         self.p_new = float(self.policy.get("p_new", 0.25))
         self.sites: set = set()
+        self.fast_kind = 3 if self.explicit else {"seq": 0, "rand": 1, "opcode": 1, "pct": 2, "site": 4, "fresh": 4}.get(self.kind, 0)
         self.concurrency_probe = {"two_in_parse_same_object": 0, "preempted_in_optimize_while_other_parses": 0, "exec_overlaps_parse": 0}
         self.active_kind = [None] * n_clients  # what each client is in the middle of: (kind, target)
         self.errors: list[str] = []
@@ -121,6 +124,7 @@ class Scheduler:
         """Hand the baton from `me` to `nxt` and park until it comes back."""
         self.recorded.append([me, self.cur_oid[me], offset, nxt])
         self.switches += 1
+        self.flush_roll()
         self.log.update(b"S%d>%d@%d;" % (me, nxt, self.steps))
         a, b = self.active_kind[me], self.active_kind[nxt]
         if a and b:
@@ -174,6 +178,8 @@ class Scheduler:
     # ------------------------------------------------------------------ op brackets
     def begin_op(self, me, oid, opidx, kind, target, no_preempt=False):
         self.no_preempt[me] = no_preempt
+        self.cur_faults[me] = self.faults.get((me, oid))
+        self.flush_roll()
         self.cur_oid[me] = oid
         self.cur_opidx[me] = opidx
         self.op_steps[me] = 0
@@ -250,9 +256,37 @@ class Scheduler:
         return None
 
     def local_trace(self, frame, event, arg):
-        if event == "line" or event == "opcode":
-            self.step(frame)
+        # the hot path: one Python call per traced line.  Everything a step always does is
+        # here; the rare parts (caps, faults, decisions that fire) are in step_slow().
+        if event != "line" and event != "opcode":
+            return self.local_trace
+        me = self.current
+        steps = self.steps = self.steps + 1
+        ops = self.op_steps
+        off = ops[me] = ops[me] + 1
+        # event-log digest: a rolling 60-bit hash of (client, line) per step, folded into the
+        # blake2 log at every operation boundary, switch and fault
+        self.roll = ((self.roll * 1000003) ^ (frame.f_lineno + (me << 24))) & 0xFFFFFFFFFFFFFFF
+        if self.cur_faults[me] is not None or steps > self.step_cap or off > self.op_step_cap:
+            self.step_slow(frame, me, off)
+        if self.no_preempt[me]:
+            return self.local_trace
+        k = self.fast_kind
+        if k == 1:  # rand
+            if steps >= self.next_switch >= 0:
+                self.decide(frame, me, off)
+        elif k == 2:  # pct
+            if self.pct_points and steps >= self.pct_points[0]:
+                self.decide(frame, me, off)
+        elif k == 3:  # explicit
+            if self.yq[me]:
+                self.decide(frame, me, off)
+        elif k == 4:  # site / fresh: a draw per step
+            self.decide(frame, me, off)
         return self.local_trace
+
+    def flush_roll(self):
+        self.log.update(self.roll.to_bytes(8, "little"))
 
     def arm(self):
         if self.traced:
@@ -261,23 +295,19 @@ class Scheduler:
     def disarm(self):
         sys.settrace(None)
 
-    def step(self, frame):
-        me = self.current
-        self.steps += 1
-        self.op_steps[me] += 1
-        off = self.op_steps[me]
+    def step_slow(self, frame, me, off):
         code = frame.f_code
-        self.log.update(b"%d:%s:%d;" % (me, code.co_name.encode(), frame.f_lineno))
         if self.steps > self.step_cap or off > self.op_step_cap:
             self.capped = True
             raise StepCap
         # ---- faults placed inside this operation
-        fl = self.faults.get((me, self.cur_oid[me]))
+        fl = self.cur_faults[me]
         if fl:
             for f in fl:
                 if not f[2] and f[0] == off:
                     f[2] = True
                     self.fired.append({"kind": f[1], "client": me, "oid": self.cur_oid[me], "offset": off, "at": f"{code.co_filename.rsplit('/', 1)[-1]}:{code.co_name}:{frame.f_lineno}"})
+                    self.flush_roll()
                     self.log.update(b"F" + f[1].encode())
                     if f[1] == "gc":
                         gc.collect()
@@ -287,11 +317,11 @@ class Scheduler:
                         regex.purge()
                     elif f[1] == "abort":
                         raise SimAbort
-        # ---- scheduling decision (never inside an operation running under a recursion pad:
-        # scheduler code needs Python frames of its own, and a RecursionError inside it would
-        # make search and replay diverge)
-        if self.no_preempt[me]:
-            return
+    def decide(self, frame, me, off):
+        """Scheduling decision at a step (never inside an operation running under a recursion
+        pad: scheduler code needs Python frames of its own, and a RecursionError inside it
+        would make search and replay diverge)."""
+        code = frame.f_code
         if self.explicit:
             q = self.yq[me]
             if q:
@@ -338,4 +368,5 @@ class Scheduler:
                     self._switch(me, nxt, off)
 
     def digest(self):
+        self.flush_roll()
         return self.log.hexdigest()
